@@ -383,17 +383,24 @@ impl BigInt
             }
         }
 
-        let mut result = BigInt::from(0);
+        // The bits `right..left` of the infinite two's complement
+        // representation: shifted down (rounding towards negative
+        // infinity), then taken modulo 2^width as a non-negative
+        // number. (Reading a negative value bit by bit is quadratic
+        // in its length.)
+        let width = left - right;
+        let modulus = num_bigint::BigInt::from(1) << width;
+        let mut low = (&self.bigint >> right) % &modulus;
 
-        for i in (0..(left - right)).rev()
+        if low.sign() == num_bigint::Sign::Minus
         {
-            result.set_bit(
-                i,
-                self.get_bit(right + i));
+            low += &modulus;
         }
 
-        result.size = Some(left - right);
-        result
+        BigInt {
+            bigint: low,
+            size: Some(width),
+        }
     }
     
     
